@@ -103,6 +103,7 @@ impl Engine for HrLiveEngine {
         if idx == 16 { return vec!["hr.conc 4 400 0 0".into()]; }
         if idx == 17 { return vec!["hr.update 3 0*1 1*2 / 2 / 1".into()]; }
         if idx == 18 { return vec!["hr.bulk 300".into()]; }
+        if idx == 19 || (idx > 19 && idx % 15 == 4) { return vec![format!("hr.static {}", rng.range(1, 4))]; }
         if rng.chance(1, 12) {
             let n = *rng.pick(if thorough { &[1usize, 100, 129, 300, 1000, 3000][..] } else { &[40usize, 300][..] });
             return vec![format!("hr.bulk {n}")];
@@ -220,6 +221,29 @@ impl Engine for HrLiveEngine {
                                 _ => "the reloader thread is alive and asleep, its channel is empty: the single caller was never answered".to_string(),
                             };
                             rec.oracle_fail(format!("{cls} `{line}`: hot_reload() never returned: all threads asleep, no progress for 2 s; {what}; threads {snap:?}"));
+                            rec.op(line.clone(), "blocked");
+                        }
+                        Exit::Timeout => { rec.oracle_fail(format!("child-timeout `{line}`")); rec.op(line.clone(), "timeout"); }
+                    }
+                }
+                "hr.static" => {
+                    // a `'static` cache after enhance_hot_reloading(): hot_reload() is documented as a no-op there, it must still return
+                    let k = match w.get(1).and_then(|x| x.parse::<usize>().ok()) { Some(k) if w.len() == 2 && (1..=64).contains(&k) => k, _ => { rec.op(line.clone(), "bad-op"); rec.stat("malformed"); continue; } };
+                    rec.nontrivial = true;
+                    rec.stat("static/hot_reload-after-enhance");
+                    let out = child::run_child("hrlive", line);
+                    for o in &out.oracle { rec.oracle_fail(o.clone()); }
+                    match &out.exit {
+                        Exit::Code(0) => {
+                            let res = out.results.iter().find(|r| r.starts_with("returned ")).cloned().unwrap_or_else(|| "no-result".into());
+                            if res != format!("returned {k}") { rec.oracle_fail(format!("single-caller-never-answered `{line}`: {res}")); }
+                            rec.op(line.clone(), res);
+                        }
+                        Exit::Code(c) => { rec.oracle_fail(format!("child-failed exit code {c}: {}", out.stderr.lines().last().unwrap_or(""))); rec.op(line.clone(), format!("child-exit-{c}")); }
+                        Exit::Signal(sig) => { rec.oracle_fail(format!("child-crashed `{line}`: killed by signal {sig}")); rec.op(line.clone(), "aborted"); }
+                        Exit::Blocked(snap) => {
+                            let cls = if reloader_present(snap) { "single-caller-never-answered" } else { "reload-panic-never-answered" };
+                            rec.oracle_fail(format!("{cls} `{line}`: hot_reload() on a cache in static mode never returned: all threads asleep, no progress for 2 s; threads {snap:?}"));
                             rec.op(line.clone(), "blocked");
                         }
                         Exit::Timeout => { rec.oracle_fail(format!("child-timeout `{line}`")); rec.op(line.clone(), "timeout"); }
@@ -391,11 +415,34 @@ fn child_bulk(n: usize) {
     println!("R returned {cached}");
 }
 
+fn child_static(k: usize) {
+    crate::exec_world::quiet_panics();
+    let src = MemSource::new(true);
+    src.put("a0", "s", FileSt::Bytes(b"1".to_vec().into(), 0));
+    let cache: &'static AssetCache<MemSource> = Box::leak(Box::new(AssetCache::with_source(src.clone())));
+    if let Err(e) = cache.load::<S<0>>("a0") { println!("O child-load-failed a0: {}", canon_error(&e)); }
+    cache.enhance_hot_reloading();
+    progress();
+    let mut n = 0;
+    for i in 0..k {
+        if i == 1 {
+            // an edit applied by the static reloader on its own, then another call
+            src.put("a0", "s", FileSt::Bytes(b"2".to_vec().into(), 0));
+            if let Some(tx) = src.sender() { let _ = tx.send(OwnedDirEntry::File("a0".into(), "s".into())); }
+        }
+        cache.hot_reload();
+        n += 1;
+        progress();
+    }
+    println!("R returned {n}");
+}
+
 pub fn child_main(line: &str) {
     let w: Vec<&str> = line.split_whitespace().collect();
     match w.first().copied() {
         Some("hr.update") => match parse_update(&w) { Some(op) => child_update(&op), None => std::process::exit(3) },
         Some("hr.bulk") => match parse_bulk(&w) { Some(n) => child_bulk(n), None => std::process::exit(3) },
+        Some("hr.static") => match w.get(1).and_then(|x| x.parse::<usize>().ok()) { Some(k) => child_static(k), None => std::process::exit(3) },
         Some("hr.conc") => match parse_conc(&w) { Some((t, c, l, e)) => child_conc(t, c, l, e), None => std::process::exit(3) },
         _ => std::process::exit(3),
     }
